@@ -51,6 +51,9 @@ fn wire_complete(points: &[usize], upto: usize) -> usize {
 }
 
 pub fn check(c: &OpCase, run: &OpsRun, known: &dyn Fn(&str) -> bool, info: &mut CaseInfo) -> Result<(), String> {
+    if let Some((toi, at)) = run.remove_refused.first() {
+        return Err(format!("remove_object({}) answered false (log #{}) although the object had been added, not removed, and had not finished its transfers: it stays in the sender", toi, at));
+    }
     let log = &run.drv.log;
     // symbol / flag / removal semantics per transfer (shared with C08)
     let facts: Vec<ObjFacts> = run
